@@ -17,6 +17,14 @@ Encodings (lists of ints):
   observation of one channel (Action.observe): cell, the attribute of every execution id, -3, chunks
                      that reached the original stream, then per sink -4 and its chunks
 A chunk is a self-delimiting piece of text (`text(j)`); -7 stands for text that is not a sequence of chunks.
+
+Part G (which verbosity a task is executed with): tasks with a verbosity of their own (None/0/1/2), with and without
+setup tasks (a task with setup tasks is selected twice by Runner.select_task), under every global setting, through
+Runner, MThreadRunner(1), DoitMain.run and the real command line (serial, -n 1 -P process).  The demanded live/captured
+output follows the effective verbosity, whose values are Model/Action.v `effective_verbosity` evaluated inside Coq
+(`eff_table`); the whole observation is compared with `vrun_ops` / `vrun_verbs` of the model.
+  task.verbosity     the attribute after the run: 0/1/2, -1 = None, -9 = the run did not get to the task, 99 anything else
+  -6                 separates the list of these attributes from the rest of the observation
 """
 import io, itertools, os, re, signal, sys, threading
 import common
@@ -1116,6 +1124,433 @@ def part_runs(ctx, out):
     return cases
 
 
+# ------------------------------------------------------------------ G. which verbosity a task is executed with
+# Runs of tasks that have a verbosity of their own (None/0/1/2) and setup tasks, under every global setting:
+# Runner / MThreadRunner(1) built by hand with Stream(verbosity, force_global); DoitMain.run in-process (serial and
+# -n 1 -P thread) and the real command line in a sub-process (serial and -n 1 -P process) with the verbosity given by
+# DOIT_CONFIG and/or -v.  Observed: what every action holds as self.out/self.err, what reached the original
+# stdout/stderr (= shown live), the attribute task.verbosity of every task afterwards, the outcome of the run.
+# Extra encodings: task.verbosity None = -1, a task the run did not get to = -9; -6 separates the attribute list.
+VROUTES = ('serial', 'thread', 'main', 'main-thread')
+CLI_ROUTES = ('cli', 'cli-process')
+SV = (None, 0, 1, 2)
+HAND_CFG = [(v, f) for v in SV for f in (False, True)]
+MAIN_CFG = [(cli, cfg) for cli in SV for cfg in SV]
+
+
+def oz(v):
+    return 'None' if v is None else '(Some %d)' % v
+
+
+def is_hand(route):
+    return route in ('serial', 'thread')
+
+
+def stream_term(spec):
+    if is_hand(spec['route']):
+        return '(mk_stream %s %s)' % (oz(spec['sv']), 'true' if spec['force'] else 'false')
+    return '(cmd_stream %s %s)' % (oz(spec['cli']), oz(spec['cfg']))
+
+
+def eff_key(spec, verb):
+    return ('hand', spec['sv'], bool(spec['force']), verb) if is_hand(spec['route']) else ('cmd', spec['cli'], spec['cfg'], verb)
+
+
+def documented_eff(key):
+    """docstring of Stream: 1) command line (forced) 2) task value 3) other config; default 1"""
+    if key[0] == 'hand':
+        _, sv, force, verb = key
+        if sv is not None and force:
+            return sv
+        return verb if verb is not None else (sv if sv is not None else 1)
+    _, cli, cfg, verb = key
+    return cli if cli is not None else verb if verb is not None else cfg if cfg is not None else 1
+
+
+def eff_table(ctx, strict=True):
+    """effective verbosity for every (global setting, task value): Model/Action.v evaluated inside Coq"""
+    keys = [('hand', sv, f, tv) for sv, f in HAND_CFG for tv in SV] + [('cmd', cli, cfg, tv) for cli, cfg in MAIN_CFG for tv in SV]
+    items = []
+    for k in keys:
+        if k[0] == 'hand':
+            items.append('effective_verbosity (mk_stream %s %s) %s' % (oz(k[1]), 'true' if k[2] else 'false', oz(k[3])))
+        else:
+            items.append('effective_verbosity (cmd_stream %s %s) %s' % (oz(k[1]), oz(k[2]), oz(k[3])))
+    try:
+        outs = common.coq_eval(ctx, PRE, items, tag='eff')
+        return {k: int(o.replace('%Z', '').strip(' ()')) for k, o in zip(keys, outs)}
+    except Exception as e:  # noqa
+        if strict:
+            raise
+        print('(model not evaluated: %s; using the documented priority)' % str(e)[:200])
+        return {k: documented_eff(k) for k in keys}
+
+
+def gen_vacts(rng, ctr, n, ends):
+    """like gen_acts, but every action writes to both channels (so that every verbosity shows)"""
+    acts = gen_acts(rng, ctr, n, 0.0, ends=ends)
+    for a in acts:
+        for ch in (0, 1):
+            if not any(w[0] == ch for w in a['ws']):
+                a['ws'].insert(rng.randrange(len(a['ws']) + 1), [ch, ctr[1]])
+                ctr[1] += 1
+    return acts
+
+
+def gen_stask(rng, ctr, verb):
+    return dict(verb=verb, cap=rng.random() < 0.8,
+                acts=gen_vacts(rng, ctr, rng.choice([1, 1, 2]), ['none', 'none', 'none', 'true', 'str', 'dict', 'false', 'raise']),
+                teardown=gen_vacts(rng, ctr, rng.choice([0, 0, 1]), ['none', 'none', 'true', 'false', 'raise']))
+
+
+def gen_vrun(rng, route, k, pbase):
+    """k: index in the systematic sweep over (global setting x own verbosity of a task WITH setup tasks)"""
+    ctr = [0, 0]
+    spec = dict(route=route, chain=rng.random() < 0.5)
+    if is_hand(route):
+        spec['sv'], spec['force'] = HAND_CFG[k % len(HAND_CFG)]
+        first = SV[(k // len(HAND_CFG)) % 4]
+    else:
+        spec['cli'], spec['cfg'] = MAIN_CFG[k % len(MAIN_CFG)]
+        first = SV[(k // len(MAIN_CFG)) % 4]
+    vts = []
+    for n in range(rng.choice([1, 2, 2, 3])):
+        nset = rng.choice([1, 1, 2]) if n == 0 else rng.choice([0, 0, 1, 2])
+        setup = [gen_stask(rng, ctr, rng.choice(SV)) for _ in range(nset)]
+        t = gen_stask(rng, ctr, first if n == 0 else rng.choice(SV))
+        t['setup'] = setup
+        vts.append(t)
+    if rng.random() < 0.5:      # the interesting task is not always the first one
+        vts.reverse()
+    spec['vtasks'] = vts
+    if rng.random() < pbase and route not in CLI_ROUTES:
+        base = ('exit', 'exit0', 'exitmsg', 'kbd') if 'thread' in route else BASE_ENDS
+        a = rng.choice([a for t in vts for s in t['setup'] + [t] for a in s['acts']])
+        a['end'] = rng.choice(base)
+    return spec
+
+
+def vunits(spec):
+    """(name, visited twice, task) in execution order -- Model/Action.v units_of"""
+    us = []
+    for n, t in enumerate(spec['vtasks']):
+        for j, s_ in enumerate(t['setup']):
+            us.append(('m%ds%d' % (n, j), False, s_))
+        us.append(('m%d' % n, bool(t['setup']), t))
+    return us
+
+
+def coq_stask(t):
+    return '{| st_verb := %s; st_capture := %s; st_acts := %s; st_teardown := %s |}' % (
+        oz(t['verb']), 'true' if t['cap'] else 'false', coq_acts(t['acts']), coq_acts(t['teardown']))
+
+
+def coq_vtasks(spec):
+    return '[' + '; '.join('{| vt_task := %s; vt_setup := [%s] |}' % (coq_stask(t), '; '.join(coq_stask(s_) for s_ in t['setup']))
+                           for t in spec['vtasks']) + ']'
+
+
+def sim_vrun(sim, spec, eff):
+    """what the property demands of such a run; also the verbosity every task must have been executed with"""
+    tds, res, verbs = [], (0, None), []
+    stopped = False
+    for name, twice, t in vunits(spec):
+        if stopped:
+            verbs.append(-9)
+            continue
+        v = eff[eff_key(spec, t['verb'])]
+        verbs.append(v)
+        tds.insert(0, (t, v))
+        res = sim_task(sim, t['cap'], v, t['acts'])
+        stopped = res[0] != 0
+    for t, v in tds:
+        sim_task(sim, t['cap'], v, t['teardown'])
+    return res, verbs
+
+
+def vtask_attrs(name, t, reg, names, chain):
+    d = dict(actions=[mk_callable(a, reg, True) for a in t['acts']], io={'capture': t['cap']}, verbosity=t['verb'])
+    if t['teardown']:
+        d['teardown'] = [mk_callable(a, reg, True) for a in t['teardown']]
+    if t.get('setup'):
+        d['setup'] = ['%ss%d' % (name, j) for j in range(len(t['setup']))]
+    if chain and 's' not in name and name != 'm0':
+        d['task_dep'] = ['m%d' % (int(name[1:]) - 1)]
+    return d
+
+
+DODO_HEAD = r"""
+import sys, re
+class EscapingBase(BaseException):
+    pass
+def text(j):
+    return 'k%d.%s\n' % (j, 'x' * (j % 3))
+def finish(kind):
+    if kind == 'none': return None
+    if kind == 'true': return True
+    if kind == 'false': return False
+    if kind == 'str': return 'text'
+    if kind == 'dict': return {'a': 1}
+    if kind == 'raise': raise RuntimeError('boom')
+    raise AssertionError(kind)
+def mk(ws, end):
+    def f():
+        for ch, j in ws:
+            (sys.stderr if ch else sys.stdout).write(text(j))
+        return finish(end)
+    return f
+"""
+
+
+def vrun_cli(spec, tmp, tag):
+    """the real command line, in a sub-process: live output = what arrives on its stdout/stderr; exit status"""
+    import subprocess
+    d = os.path.join(tmp, tag)
+    os.makedirs(d, exist_ok=True)
+    cfg = {'dep_file': os.path.join(d, 'db')}
+    if spec['cfg'] is not None:
+        cfg['verbosity'] = spec['cfg']
+    lines = [DODO_HEAD, 'DOIT_CONFIG = %r' % cfg]
+    for name, twice, t in vunits(spec):
+        attrs = ['actions=[%s]' % ', '.join('mk(%r, %r)' % (a['ws'], a['end']) for a in t['acts']),
+                 'io={"capture": %r}' % t['cap'], 'verbosity=%r' % t['verb']]
+        if t['teardown']:
+            attrs.append('teardown=[%s]' % ', '.join('mk(%r, %r)' % (a['ws'], a['end']) for a in t['teardown']))
+        if t.get('setup'):
+            attrs.append('setup=%r' % ['%ss%d' % (name, j) for j in range(len(t['setup']))])
+        if spec['chain'] and 's' not in name and name != 'm0':
+            attrs.append('task_dep=[%r]' % ('m%d' % (int(name[1:]) - 1)))
+        lines.append('def task_%s():\n    return dict(%s)' % (name, ', '.join(attrs)))
+    with open(os.path.join(d, 'dodo.py'), 'w') as f:
+        f.write('\n'.join(lines) + '\n')
+    args = [common.PY, '-m', 'doit', 'run', '-f', os.path.join(d, 'dodo.py'), '-o', os.path.join(d, 'report')]
+    if spec['cli'] is not None:
+        args += ['-v', str(spec['cli'])]
+    if spec['route'] == 'cli-process':
+        args += ['-n', '1', '-P', 'process']
+    args += ['m%d' % n for n in range(len(spec['vtasks']))]
+    p = subprocess.run(args, cwd=d, env=common.impl_env(), stdout=subprocess.PIPE, stderr=subprocess.PIPE, text=True, timeout=120)
+    return p.returncode, p.stdout, p.stderr
+
+
+def vrun_case(spec, tmp, tag, eff):
+    """one run for real and by the reference semantics"""
+    from doit.task import Task, Stream
+    units = vunits(spec)
+    ids = [a['id'] for _, _, t in units for a in t['acts'] + t['teardown']]
+    sim = Sim()
+    (want_o, want_cls), want_verbs = sim_vrun(sim, spec, eff)
+    want = [sim.vector(0, ids, []), sim.vector(1, ids, [])]
+    route = spec['route']
+    if route in CLI_ROUTES:
+        try:
+            rc, o, e = vrun_cli(spec, tmp, tag)
+            crash = None if rc in (0, 1, 2) else 'exit status %s: %s' % (rc, e[-300:])
+        except Exception as ex:  # noqa
+            rc, o, e, crash = 98, '', '', repr(ex)
+        got = [[-3] + dec_loose(o), [-3] + dec_loose(e)]
+        want = [w[w.index(-3):] for w in want]
+        return dict(ids=ids, got=got, want=want, obs=rc if rc in (0, 1, 2) else 98, want_obs=want_o, escaped=None, want_cls=None,
+                    crash=crash, verbs=None, want_verbs=want_verbs, raw=(o[:300], e[:300]))
+    reg = {}
+    mains = ['m%d' % n for n in range(len(spec['vtasks']))]
+    escaped, crash = None, None
+    db = os.path.join(tmp, '%s.db' % tag)
+
+    def guarded(fn):
+        if 'thread' not in route:
+            return fn()
+        box = []
+
+        def target():
+            try:
+                box.append(('rc', fn()))
+            except BaseException as e:  # noqa
+                box.append(('exc', e))
+        th = threading.Thread(target=target, daemon=True)
+        th.start()
+        th.join(60)
+        if not box:
+            raise RuntimeError('the run did not end within 60 s')
+        if box[0][0] == 'exc':
+            raise box[0][1]
+        return box[0][1]
+    with Streams() as st:
+        try:
+            if is_hand(route):
+                from doit.control import TaskControl
+                from doit.runner import Runner, MThreadRunner
+                from doit.dependency import Dependency, DbmDB
+                from doit.reporter import ConsoleReporter
+                tl = [Task(name, **vtask_attrs(name, t, reg, mains, spec['chain'])) for name, _, t in units]
+                tc = TaskControl(tl)
+                tc.process(mains)
+                dep = Dependency(DbmDB, db)
+                rep = ConsoleReporter(io.StringIO(), {})
+                stream = Stream(spec['sv'], spec['force'])
+                if route == 'serial':
+                    runner = Runner(dep, rep, stream=stream)
+                else:
+                    runner = MThreadRunner(dep, rep, stream=stream, num_process=1)
+                rc = guarded(lambda: runner.run_all(tc.task_dispatcher()))
+            else:
+                from doit.doit_cmd import DoitMain
+                from doit.cmd_base import ModuleTaskLoader
+                cfg = {'dep_file': db}
+                if spec['cfg'] is not None:
+                    cfg['verbosity'] = spec['cfg']
+                ns = {'DOIT_CONFIG': cfg}
+                for name, _, t in units:
+                    ns['task_' + name] = (lambda d: (lambda: d))(vtask_attrs(name, t, reg, mains, spec['chain']))
+                args = ['run', '-o', os.path.join(tmp, '%s.report' % tag)]
+                if spec['cli'] is not None:
+                    args += ['-v', str(spec['cli'])]
+                if route == 'main-thread':
+                    args += ['-n', '1', '-P', 'thread']
+                rc = guarded(lambda: DoitMain(ModuleTaskLoader(ns)).run(args + mains))
+            obs = rc if rc in (0, 1, 2) else 98
+        except BaseException as e:  # noqa
+            obs, escaped = classify_exc(e), type(e)
+            if obs == 98:
+                crash = repr(e)
+        cells = (sys.stdout, sys.stderr)
+    got = []
+    for ch in (0, 1):
+        v_ = [0 if cells[ch] is (st.out, st.err)[ch] else 999]
+        for _, _, t in units:
+            for which, lst in (('actions', t['acts']), ('teardown', t['teardown'])):
+                for p, a in enumerate(lst):
+                    tk = reg.get(a['id'])
+                    v_ += [-1] if tk is None else attr_z((getattr(tk, which)[p].out, getattr(tk, which)[p].err)[ch])
+        v_ += [-3] + dec_loose((st.out, st.err)[ch].getvalue())
+        got.append(v_)
+    verbs = []
+    for _, _, t in units:
+        tk = reg.get(t['acts'][0]['id'])
+        if tk is None:
+            verbs.append(-9)
+            continue
+        vb = tk.verbosity
+        verbs.append(-1 if vb is None else vb if isinstance(vb, int) and not isinstance(vb, bool) and 0 <= vb <= 9 else 99)
+    return dict(ids=ids, got=got, want=want, obs=obs, want_obs=want_o, escaped=escaped, want_cls=want_cls, crash=crash,
+                verbs=verbs, want_verbs=want_verbs, raw=(st.out.getvalue()[:300], st.err.getvalue()[:300]))
+
+
+def describe_global(spec):
+    if is_hand(spec['route']):
+        return 'Stream(%r, force_global=%r)' % (spec['sv'], spec['force'])
+    return '-v %s on the command line, verbosity %s in DOIT_CONFIG' % (
+        'not given' if spec['cli'] is None else spec['cli'], 'not given' if spec['cfg'] is None else spec['cfg'])
+
+
+def vrun_violations(spec, r):
+    vs = []
+    where = 'a run (%s; %s) of tasks with a verbosity of their own / setup tasks' % (spec['route'], describe_global(spec))
+    units = vunits(spec)
+    detail = ''
+    if r['verbs'] is not None and r['verbs'] != r['want_verbs']:
+        bad = [(units[i], g, w) for i, (g, w) in enumerate(zip(r['verbs'], r['want_verbs'])) if g != w]
+        (name, twice, t), g, w = bad[0]
+        detail = "task %s (own verbosity %r, %s) was executed with task.verbosity = %s, its effective verbosity is %s" % (
+            name, t['verb'], 'has setup tasks: selected twice' if twice else 'no setup tasks',
+            {-1: 'None', -9: '<not executed>'}.get(g, g), {-9: '<must not be executed>'}.get(w, w))
+        vs.append(dict(what='%s: %s' % (where, detail), shape='verbosity-vrun' + ('-setup' if twice else ''),
+                       case=dict(spec=spec, observed=r['verbs'], demanded=r['want_verbs'])))
+    for ch, name in ((0, 'sys.stdout'), (1, 'sys.stderr')):
+        if r['got'][ch] != r['want'][ch]:
+            msg, kind = explain(r['got'][ch], r['want'][ch], where)
+            if kind == 'capture':
+                g, w = r['got'][ch], r['want'][ch]
+                gl, wl = g[g.index(-3) + 1:], w[w.index(-3) + 1:]
+                if gl != wl and g[:g.index(-3)] == w[:w.index(-3)]:
+                    kind = 'live'
+                    msg = ('%s: ' + ('' if spec['route'] in CLI_ROUTES else 'everything is captured but ') +
+                           'what is shown live does not follow the effective verbosity after ' + where)
+            vs.append(dict(what=(msg % name) + ('; ' + detail if detail else ''), shape='%s-vrun' % kind,
+                           case=dict(spec=spec, channel=name, observed=r['got'][ch], demanded=r['want'][ch])))
+    if r['obs'] != r['want_obs'] or (r['want_cls'] is not None and r['escaped'] is not r['want_cls']):
+        vs.append(dict(what='%s: outcome %s (escaping %s), documented %s (escaping %s)' % (where, r['obs'], r['escaped'], r['want_obs'], r['want_cls']),
+                       shape='outcome-vrun', case=dict(spec=spec)))
+    if r['crash']:
+        vs.append(dict(what='%s ended with an unexpected exception / exit status: %s' % (where, r['crash']), shape='vrun-crash', case=dict(spec=spec)))
+    return vs
+
+
+def part_verbosity(ctx, out):
+    from doit.task import Task, Stream
+    rng = ctx.rng
+    tmp = ctx.subdir('vruns')
+    eff = eff_table(ctx)
+    cases = []
+    # G1. Stream / Task.overwrite_verbosity themselves, exhaustively
+    zs, model = [], []
+    for sv, f in HAND_CFG:
+        try:
+            st = Stream(sv, f)
+            zs += [st.verbosity, int(st.force_global)]
+        except Exception:  # noqa
+            zs += [98, 98]
+        model.append('(let s := mk_stream %s %s in [vs_verbosity s; zb (vs_force s)])' % (oz(sv), 'true' if f else 'false'))
+        for tv in SV:
+            try:
+                t = Task('t', None, verbosity=tv)
+                t.overwrite_verbosity(Stream(sv, f))
+                first = t.verbosity
+                t.overwrite_verbosity(Stream(sv, f))
+                e = [Stream(sv, f).effective_verbosity(tv), first, t.verbosity]
+                e = [(-1 if x is None else x) for x in e]
+            except Exception:  # noqa
+                e = [98, 98, 98]
+            zs += e
+            model.append('(let s := mk_stream %s %s in [effective_verbosity s %s; verb_arg (select_visit s true %s); '
+                         'verb_arg (select_visit s true (select_visit s true %s))])' % (oz(sv), 'true' if f else 'false', oz(tv), oz(tv), oz(tv)))
+            out.count('verbosity:stream')
+            out.nontrivial.add(('eff', sv, f, tv))
+            want = documented_eff(('hand', sv, f, tv))
+            if e != [want] * 3:
+                out.violations.append(dict(what='Stream(%r, %r).effective_verbosity(%r) / Task.overwrite_verbosity (once, twice) give %s, documented priority gives %s' % (
+                    sv, f, tv, e, want), shape='effective-verbosity', case=dict(stream=[sv, f], task=tv)))
+    cases.append(dict(model=' ++ '.join(model), expected=zs, desc=('stream', len(zs))))
+    for k, v in eff.items():
+        if v != documented_eff(k):
+            out.mismatches.append(dict(case='effective verbosity %r' % (k,), impl=documented_eff(k), model=[v]))
+    # G2. runs
+    n = ctx.n(256, 1600)
+    for ci in range(n):
+        route = VROUTES[ci % 4]
+        spec = gen_vrun(rng, route, ci // 4, 0.15)
+        cases += vrun_one(spec, tmp, 'v%d' % ci, eff, out)
+    for ci in range(ctx.n(24, 128)):
+        route = CLI_ROUTES[ci % 2]
+        spec = gen_vrun(rng, route, (ci // 2) * 5, 0.0)      # 5 is coprime to 64: every (-v, DOIT_CONFIG, own value) within 64 steps
+        cases += vrun_one(spec, tmp, 'c%d' % ci, eff, out)
+    if cases:
+        out.samples.append({'verbosity_run': cases[-1]['desc'][1], 'observed': cases[-1]['expected']})
+    return cases
+
+
+def vrun_one(spec, tmp, tag, eff, out):
+    r = vrun_case(spec, tmp, tag, eff)
+    route = spec['route']
+    st, ts = stream_term(spec), coq_vtasks(spec)
+    if route in CLI_ROUTES:
+        model = ('let us := units_of %s in let ops := vrun_ops %s us [] in -3 :: s_orig (srun false false ops) ++ -3 :: s_orig (srun false true ops) '
+                 '++ [aout_z (vrun_outcome us)]') % (ts, st)
+        expected = r['got'][0] + r['got'][1] + [r['obs']]
+    else:
+        model = ('let us := units_of %s in obs2 %s [] [] (vrun_ops %s us []) ++ [aout_z (vrun_outcome us)] ++ -6 :: vrun_verbs %s us') % (
+            ts, common.coq_list(r['ids'], '%nat'), st, st)
+        expected = r['got'][0] + r['got'][1] + [r['obs'], -6] + r['verbs']
+    units = vunits(spec)
+    for name, twice, t in units:
+        out.count('verbosity:%s:task=%s:%s' % ('runner' if is_hand(route) else 'cmd', t['verb'], 'setup' if twice else 'plain'))
+    out.count('vrun:%s:%s' % (route, 'escaping' if r['want_obs'] == 3 else 'returns'))
+    out.nontrivial.add(('vrun', route, stream_term(spec), tuple((t['verb'], twice, t['cap'], tuple(a['end'] for a in t['acts'])) for _, twice, t in units),
+                        tuple(r['want'][0]), tuple(r['want'][1])))
+    out.violations += vrun_violations(spec, r)
+    return [dict(model=model, expected=expected, desc=('vrun', spec))]
+
+
 def run(ctx):
     out = Outcome()
     out.rule = ('python-action representatives per way of ending (exhaustive over tags; SystemExit/KeyboardInterrupt/GeneratorExit/user BaseException included); '
@@ -1123,10 +1558,12 @@ def run(ctx):
                 'executions (capture on/off, live streams none/current/other object, direct or through Task.execute, every way of ending, escaping '
                 'exceptions caught or propagated by the enclosing callable) and ALL interleavings of k threads for stream restoration; random tasks '
                 '(write sequences x verbosity x capture x way of ending) for capture; random runs of task chains with teardowns through Runner, '
-                'MThreadRunner(1), DoitMain.run (serial / -n 1 -P thread).  non-trivial = distinct case with >=2 actions/ops/writes '
+                'MThreadRunner(1), DoitMain.run (serial / -n 1 -P thread); Stream/overwrite_verbosity exhaustively and runs of tasks with own verbosity '
+                'None/0/1/2, with/without setup tasks, under every global setting (Stream(v, forced) for the runners built by hand; -v x DOIT_CONFIG for '
+                'DoitMain.run and the real command line incl. -n 1 -P process), swept systematically for a task WITH setup tasks.  non-trivial = distinct case with >=2 actions/ops/writes '
                 '(classification cases count per representative)')
     cases = []
-    for part in (part_py, part_cmd, part_task, part_restore_nested, part_restore_threads, part_capture, part_runs):
+    for part in (part_py, part_cmd, part_task, part_restore_nested, part_restore_threads, part_capture, part_runs, part_verbosity):
         real = (sys.stdout, sys.stderr)
         try:
             cases += part(ctx, out)
@@ -1142,7 +1579,9 @@ def run(ctx):
                        'teardown actions whose own exception escapes, and the thread runner with a BaseException other than SystemExit/KeyboardInterrupt '
                        '(its worker does not hand it over: the run never ends), are outside the model of a run']
     out.extra['trusted_base'] = ['mapping of concrete Python return values / exceptions to the tags of Model/Action.v (harness/c17.py py_representatives, END_TAG)',
-                                 'the sequence of Enter/Write/Exit events a generated case stands for (harness/c17.py Sim)']
+                                 'the sequence of Enter/Write/Exit events a generated case stands for (harness/c17.py Sim)',
+                                 'the order in which a run executes the setup tasks of a task (Model/Action.v units_of) and the way the `run` command builds its '
+                                 'Stream (cmd_stream) are validated by the generated runs only (DOIT_CONFIG and -v; INI files / environment are not exercised)']
     return out
 
 
@@ -1154,6 +1593,16 @@ def replay(ctx, payload):
     vs = None
     if 'forest' in case:
         vs = forest_violations(case['forest'], forest_case(case['forest']))
+    elif 'spec' in case and isinstance(case['spec'], dict) and 'vtasks' in case['spec']:
+        spec = case['spec']
+        vs = vrun_violations(spec, vrun_case(spec, ctx.subdir('replay'), 'replay', eff_table(ctx, strict=False)))
+    elif 'stream' in case and 'task' in case:
+        from doit.task import Task, Stream
+        (sv, f), tv = case['stream'], case['task']
+        t = Task('t', None, verbosity=tv)
+        t.overwrite_verbosity(Stream(sv, f))
+        got, want = [Stream(sv, f).effective_verbosity(tv), t.verbosity], documented_eff(('hand', sv, f, tv))
+        vs = [] if got == [want, want] else [dict(shape='effective-verbosity', what='effective verbosity / overwritten attribute %s, documented %s' % (got, want), case={})]
     elif 'spec' in case and isinstance(case['spec'], dict) and 'tasks' in case['spec']:
         spec = case['spec']
         vs = task_violations(spec, run_case(spec, ctx.subdir('replay'), 'replay'), where='a run (%s)' % spec['route'], shape='run')
